@@ -394,7 +394,7 @@ def parse_body(f):
                 if mm:
                     term = ('callptr', parse_place(m.group(1)), parse_operand(mm.group(1)), [parse_operand(a) for a in split_top(mm.group(2))], int(m.group(3)[2:]))
                     continue
-            m = re.match(r'(.*?) = (.*)\) -> unwind', line)
+            m = re.match(r'(.*?) = (.*)\) -> (?:unwind|bb\d+$)', line)
             if m:
                 ca = m.group(2)
                 depth = 0
